@@ -11,10 +11,15 @@ import Generated.Enums
 
 namespace FlexModel.Geo.Recv
 
-/-- exception classes that the modelled code can raise (`opaque` = anything raised by third-party or
-upper-layer code: asn1tools, ecdsa, facility callbacks — assumed to derive from `Exception`). -/
+/-- exception classes that the modelled code can raise.
+`stdoutError`: what `print` raises when stdout is closed or broken (`BrokenPipeError`, an `OSError`) - a fault of the
+environment, raised INSIDE an except handler that reports with `print`.
+`listed i`: the i-th class of the generated table `Generated.Except.raiseTable` = every class named by a `raise`
+statement in the packages on the receive path (flexstack, asn1tools, ecdsa: ast pass) plus every class observed
+by the fuzzing runs; an index outside the table stands for `Exception` itself. -/
 inductive Exc
-  | decodeError | decapError | valueError | notImplementedError | zeroDivisionError | opaque
+  | decodeError | decapError | valueError | notImplementedError | zeroDivisionError | stdoutError
+  | listed (i : Nat)
 deriving DecidableEq, Repr
 
 def Exc.name : Exc → String
@@ -23,7 +28,8 @@ def Exc.name : Exc → String
   | .valueError => "ValueError"
   | .notImplementedError => "NotImplementedError"
   | .zeroDivisionError => "ZeroDivisionError"
-  | .opaque => "Exception"
+  | .stdoutError => "BrokenPipeError"
+  | .listed _ => "Exception"
 
 inductive Handler
   | beacon | shb | tsb | gbc | gac | guc | lsRequest | lsReply
@@ -147,29 +153,71 @@ def classify (cfg : Cfg) (f : List Nat) : Outcome :=
 def caught (mro : Exc → List String) (catches : List String) (e : Exc) : Bool :=
   (mro e).any (fun c => catches.contains c)
 
+/-- what the body of a catching `except` handler does (read from the source by `gen_except.py`) -/
+inductive HandlerKind
+  | safe       -- only allow-listed statements that cannot raise, break or return: logging calls, `pass`, `continue`
+  | printing   -- allow-listed statements plus `print(...)`: raises iff stdout is closed / broken
+  | exits      -- anything else (`break`, `return`, `raise`, unknown statements): the loop does not continue
+deriving DecidableEq, Repr
+
+/-- shape of the `try` statement that guards the call of the frame processor, regenerated from the source -/
+structure LoopShape where
+  /-- class names of the handlers of the innermost `try` whose body calls the frame processor -/
+  catches : List String
+  /-- that `try` is (transitively) inside the body of the function's `while` loop: catching continues the loop.
+  (A `try` AROUND the loop would catch the exception and leave the loop.) -/
+  inWhile : Bool
+  handler : HandlerKind
+deriving DecidableEq, Repr
+
 inductive LoopResult (σ α : Type)
   | continue (st : σ) (acts : List α)
   | dead (e : Exc)
 
+/-- does the loop survive exception `e` of a frame received while stdout is `broken`? -/
+def survives (mro : Exc → List String) (sh : LoopShape) (e : Exc) (broken : Bool) : Bool :=
+  sh.inWhile && caught mro sh.catches e &&
+    (match sh.handler with
+     | .safe => true
+     | .printing => !broken
+     | .exits => false)
+
 /-- one iteration of a receive loop around an arbitrary frame processor `recv`
-(`recv` returns the state reached, the actions performed and the exception that escaped, if any) -/
-def loopStep {σ α φ : Type} (mro : Exc → List String) (catches : List String)
+(`recv` returns the state reached, the actions performed and the exception that escaped, if any);
+`broken f` = stdout is closed / broken while frame `f` is processed (fault input) -/
+def loopStep {σ α φ : Type} (mro : Exc → List String) (sh : LoopShape) (broken : φ → Bool)
     (recv : σ → φ → σ × List α × Option Exc) (st : σ) (f : φ) : LoopResult σ α :=
   match recv st f with
   | (st', acts, none) => .continue st' acts
-  | (st', acts, some e) => if caught mro catches e then .continue st' acts else .dead e
+  | (st', acts, some e) =>
+    if survives mro sh e (broken f) then .continue st' acts
+    else .dead (if sh.inWhile && caught mro sh.catches e then .stdoutError else e)
 
 /-- run the loop over a list of frames; `none` = the receiving thread died -/
-def loopRun {σ α φ : Type} (mro : Exc → List String) (catches : List String)
+def loopRun {σ α φ : Type} (mro : Exc → List String) (sh : LoopShape) (broken : φ → Bool)
     (recv : σ → φ → σ × List α × Option Exc) : σ → List φ → Option (σ × List α)
   | st, [] => some (st, [])
   | st, f :: fs =>
-    match loopStep mro catches recv st f with
+    match loopStep mro sh broken recv st f with
     | .dead _ => none
     | .continue st' acts =>
-      match loopRun mro catches recv st' fs with
+      match loopRun mro sh broken recv st' fs with
       | none => none
       | some (st'', acts') => some (st'', acts ++ acts')
+
+/-- `Router.gn_data_indicate`: catch-all around the frame processor `proc`; what escapes it is raised INTO the
+link layer's loop.  `sh.inWhile` is not used here (there is no loop in `gn_data_indicate`). -/
+def indicate {σ α φ : Type} (mro : Exc → List String) (sh : LoopShape) (broken : φ → Bool)
+    (proc : σ → φ → σ × List α × Option Exc) (st : σ) (f : φ) : σ × List α × Option Exc :=
+  match proc st f with
+  | (st', acts, none) => (st', acts, none)
+  | (st', acts, some e) =>
+    if caught mro sh.catches e then
+      match sh.handler with
+      | .safe => (st', acts, none)
+      | .printing => if broken f then (st', acts, some .stdoutError) else (st', acts, none)
+      | .exits => (st', acts, some e)
+    else (st', acts, some e)
 
 /-- the GN receive function built from the stateless prologue and an arbitrary stateful handler part -/
 def recvGN {σ α : Type} (cfg : Cfg) (handle : σ → Handler → List Nat → σ × List α × Option Exc)
@@ -180,9 +228,17 @@ def recvGN {σ α : Type} (cfg : Cfg) (handle : σ → Handler → List Nat → 
   | .secured => verify st f
   | .handled h => handle st h f
 
-/-- MAC filter of `RawLinkLayer.receive`: frames addressed to the own MAC, or broadcast frames not sent by
-the station itself, are passed up; everything else is ignored. -/
+/-- MAC filter of `RawLinkLayer.receive` (repaired code, fixes/C04-own-source-ignored): a frame carrying the station's
+own source address is ignored whatever its destination; frames of other stations addressed to the own MAC or to
+broadcast are passed up; everything else is ignored. -/
 def macAccept (own dst src : List Nat) : Bool :=
+  if src = own then false
+  else if dst = own then true
+  else if dst = [255, 255, 255, 255, 255, 255] then true
+  else false
+
+/-- the filter before the repair: the source was looked at for broadcast frames only -/
+def macAcceptOld (own dst src : List Nat) : Bool :=
   if dst = own then true
   else if dst = [255, 255, 255, 255, 255, 255] ∧ src ≠ own then true
   else false
